@@ -164,6 +164,9 @@ def c08_script(rng, name, thorough):
             ops.append("nreplay w%d 1 %s" % (w, src))
             for tag in (1, 2, 3, 4, 5):
                 ops.append("nreplay w%d 1 %s tlvlen=%d:%s" % (w, src, tag, rng.choice(["ffff", "fff8", "fff7", "0000", "8000"])))
+            # the signature-length byte (65 bytes from the end of a handshake datagram) set above and below 64, the signature replaced along with it
+            for v in ((0x41, 0xff, 0x60, 0x00, 0x3f, 0x80) if thorough else (0x41, 0xff, rng.choice([0x60, 0x00, 0x3f, 0x80]))):
+                ops.append("nreplay w%d 1 %s endhex=%02x%s" % (w, src, v, rng.bytes(64).hex()))
             for _ in range(6 if thorough else 2):
                 ops.append("nreplay w%d 1 %s %s" % (w, src, rng.choice(["trunc=%d" % rng.below(200), "set=%d:%d" % (rng.choice([10, 11, 13, 14, 34, 35, 36, 37, 70, 71]), rng.below(256)),
                                                                     "flip=%d" % rng.below(1400), "app=%s" % rng.bytes(rng.range(1, 5)).hex()])))
